@@ -18,7 +18,7 @@ pub const ENTRY: Entry = Entry {
     level: "model_checking",
     rule: "every public model type in src/models (the list is cross-checked against a scan of `pub struct` in /repo/src/models/*.rs) x \
            the six transports (recording and real SPI / 8-bit / 16-bit parallel, decoded at pin level) that type-check x 2 colour \
-           orders x 8 orientations x 2 inversions x 4 refresh orders x {full window, two offset windows} x {reset pin, none}. Oracle on \
+           orders x 8 orientations x 2 inversions x 4 refresh orders x {full window, two offset windows, a 3-line strip, a single pixel} x {reset pin (ordinary or zero-sized type), none}. Oracle on \
            the reference controller's *final state* (not a golden trace): awake, display on, MADCTL == specification encoding, COLMOD \
            interface format == the model's colour type, inversion as chosen, no RAMWR / pixel data, init returns >= 120 ms (virtual \
            time) after the last sleep-out, cached MADCTL (hook) == value sent; unsupported kinds are refused with UnsupportedInterface \
@@ -69,7 +69,7 @@ pub fn all_cfgs(_quick: bool) -> Vec<Cfg> {
                 continue; // does not type-check: Rgb666 has no 16-bit-word pixel format
             }
             for rst in [false, true] {
-                for win in [None, Some((fw - 5, fh - 3, 2, 1)), Some((fw / 2, fh / 2 + 1, fw / 2, 0))] {
+                for win in [None, Some((fw - 5, fh - 3, 2, 1)), Some((fw / 2, fh / 2 + 1, fw / 2, 0)), Some((fw, 3, 0, fh - 3)), Some((1, 1, fw - 1, 0))] {
                     for bgr in [false, true] {
                         for o in 0..8u8 {
                             for invert in [false, true] {
@@ -87,6 +87,10 @@ pub fn all_cfgs(_quick: bool) -> Vec<Cfg> {
                                     }
                                     if (k / 5) % 2 == 1 {
                                         flags |= F_DATA_HIGH;
+                                    }
+                                    // a zero-sized reset pin type (where the interface is not lent)
+                                    if rst && flags & F_BORROWED == 0 && (k / 7) % 2 == 1 {
+                                        flags |= F_ZST_RST;
                                     }
                                     v.push(Cfg { model: ModelId::Builtin(i as u8), tr, win, orient: o, bgr, invert, refresh, rst, flags });
                                 }
